@@ -63,6 +63,42 @@ def through_link(t):
                for x in subterms(recv))
 
 
+def accessor_use_rule(M, rep, R5, nctx):
+    """position->index functions must see what the accessors report (linked values when linked). Shared with C07."""
+    actx = Ctx(M, sig_mode="full", coarse=False)
+    actx.cfg.sig_keep = lambda e: e.kind in ("layer", "raw")
+    for cn, name, key, accessor in (("SetDimension", "index_of", "labels", "SetDimension.labels"),
+                                    ("SetDimension", "range_indices", "labels", "SetDimension.labels"),
+                                    ("RangeDimension", "index_of", "ticks", "RangeDimension.ticks"),
+                                    ("RangeDimension", "range_indices", "ticks", "RangeDimension.ticks"),
+                                    ("RangeDimension", "tick_at", "ticks", "RangeDimension.ticks"),
+                                    ("RangeDimension", "axis", "ticks", "RangeDimension.ticks")):
+        f = nctx.member(cn, name)
+        ident = "%s.%s/%s" % (cn, name, key)
+        if f is None:
+            continue
+        bad = None
+        nread = 0
+        try:
+            paths = actx.paths(f, cn, max_paths=20000)
+        except Exception as e:
+            if type(e).__name__ != "Budget":
+                raise
+            continue
+        for p in paths:
+            for e in p.events:
+                if e.kind == "layer" and e.op.split(".")[-1] in ("get_data", "has_data", "get_dataset") and e.key is not None and \
+                        e.key.t == ("const", key) and e.recv is not None and e.recv.t == OWN:
+                    nread += 1
+                    if not any(q.split(":")[-1] == accessor for q in e.stack):
+                        bad = (p, e)
+        if nread:
+            rep.check(R5, ident, bad is None, "%s.%s reads the stored %s of the dimension directly instead of through the %s accessor: a linked "
+                      "dimension is then converted with stale/absent values while its accessor reports the linked ones" % (cn, name, key, key),
+                      site=bad[1].site if bad else None, detail=describe_path(bad[0]) if bad else None, what="%d reads, all through the accessor" % nread)
+
+
+
 def run(M, rep, tier, only=None):
     ctx = Ctx(M)
     nctx = Ctx(M, coarse=False)
@@ -393,38 +429,7 @@ def run(M, rep, tier, only=None):
                     break
         rep.check(R5, key, bad is None and nl > 0 and nu > 0, bad[1] if bad else "required mechanism not found",
                   site=s.file + ":%d" % s.node.lineno, detail=describe_path(bad[0]) if bad else None)
-    # position->index functions must see what the accessors report (linked values when linked)
-    actx = Ctx(M, sig_mode="full", coarse=False)
-    actx.cfg.sig_keep = lambda e: e.kind in ("layer", "raw")
-    for cn, name, key, accessor in (("SetDimension", "index_of", "labels", "SetDimension.labels"),
-                                    ("SetDimension", "range_indices", "labels", "SetDimension.labels"),
-                                    ("RangeDimension", "index_of", "ticks", "RangeDimension.ticks"),
-                                    ("RangeDimension", "range_indices", "ticks", "RangeDimension.ticks"),
-                                    ("RangeDimension", "tick_at", "ticks", "RangeDimension.ticks"),
-                                    ("RangeDimension", "axis", "ticks", "RangeDimension.ticks")):
-        f = nctx.member(cn, name)
-        ident = "%s.%s/%s" % (cn, name, key)
-        if f is None:
-            continue
-        bad = None
-        nread = 0
-        try:
-            paths = actx.paths(f, cn, max_paths=20000)
-        except Exception as e:
-            if type(e).__name__ != "Budget":
-                raise
-            continue
-        for p in paths:
-            for e in p.events:
-                if e.kind == "layer" and e.op.split(".")[-1] in ("get_data", "has_data", "get_dataset") and e.key is not None and \
-                        e.key.t == ("const", key) and e.recv is not None and e.recv.t == OWN:
-                    nread += 1
-                    if not any(q.split(":")[-1] == accessor for q in e.stack):
-                        bad = (p, e)
-        if nread:
-            rep.check(R5, ident, bad is None, "%s.%s reads the stored %s of the dimension directly instead of through the %s accessor: a linked "
-                      "dimension is then converted with stale/absent values while its accessor reports the linked ones" % (cn, name, key, key),
-                      site=bad[1].site if bad else None, detail=describe_path(bad[0]) if bad else None, what="%d reads, all through the accessor" % nread)
+    accessor_use_rule(M, rep, R5, nctx)
 
     s = nctx.member("SetDimension", "labels", "setters")
     if s is None:
@@ -501,6 +506,7 @@ def container_identity(M, rep, rid, ctx, nctx):
         return
     bad = None
     n = 0
+    pname = f.node.args.args[1].arg
     for p in nctx.paths(f, "Container"):
         if not p.normal:
             continue
@@ -513,7 +519,7 @@ def container_identity(M, rep, rid, ctx, nctx):
         n += 1
         terms = [rv.t] + [a for a, v in p.decisions]
         dep_id = any(x and x[0] == "rd" and x[1] == "attr" and x[3] == ("const", "entity_id") and
-                     "item" in params_of(x[2]) for t in terms for x in subterms(t))
+                     pname in params_of(x[2]) for t in terms for x in subterms(t))
         if not dep_id:
             bad = p
             break
